@@ -123,7 +123,9 @@ def prefix_reward(cfg, p, t, visits=None):
         return min(1, max(0, y))
     if spec.get("negative"):
         r -= 2.0
-    return round(r * 1024) / 1024.0
+    # 'any finite reward' includes rewards with a large constant offset relative to their spread (negated costs): the
+    # statistics of a cell must still be those of its history to 1e-9 (a one-pass variance loses them; seed S-C04-9)
+    return round(r * 1024) / 1024.0 + float(spec.get("offset", 0.0))
 
 
 def initial_domain(ctx, cfg):
